@@ -542,8 +542,11 @@ CanCommit(c, g) == /\ Created(g)
                    /\ cl[c][g].pend = NoE
 NewCommit(c, g, kind, arg, nm) ==
     LET gs == cl[c][g]
-        P  == {p \in gs.props : ~(p.k = "update" /\ p.a = c)}     \* the MLS library drops the committer's own Update proposals
-        eff == Eff(kind, arg) IN
+        eff == Eff(kind, arg)
+        \* the MLS library drops the committer's own Update proposals, and a queued Remove / leave of a member the commit
+        \* removes inline anyway (duplicate removal: the inline one is kept)
+        P  == {p \in gs.props : /\ ~(p.k = "update" /\ p.a = c)
+                                /\ ~(p.k \in {"remove", "leave"} /\ U(p.t) \in eff.rem)} IN
     [name |-> nm.name, kind |-> "commit", g |-> g, author |-> c, parent |-> gs.chain,
      ts |-> nm.ts, rank |-> nm.rank, tag |-> gs.rec.data.nid, eff |-> eff, refs |-> P, gen |-> gs.sentH,
      result |-> ApplyEff(GS(g, gs.chain), eff, P)]
